@@ -5,12 +5,14 @@ import (
 	"encoding/binary"
 	"encoding/json"
 	"fmt"
+	"io"
 	"math"
 	"reflect"
 	"strconv"
 	"strings"
 	"sync"
 	"sync/atomic"
+	"testing/iotest"
 	"time"
 
 	"github.com/gcash/bchd/chaincfg/chainhash"
@@ -537,8 +539,20 @@ func c16BlockMenu(n int) []c16Op {
 var c16TxMenu = []c16Op{{kind: c16OpTHash}, {kind: c16OpTMsgTx}, {kind: c16OpTIndex},
 	{c16OpTSetIndex, 0}, {c16OpTSetIndex, 2}, {c16OpTSetIndex, bchutil.TxIndexUnknown}}
 
-var c16BlockCtors = []string{"NewBlock", "NewBlockFromBytes", "NewBlockFromReader", "NewBlockFromBlockAndBytes", "NewBlockFromBytes+trailing", "NewBlockFromReader+trailing"}
-var c16TxCtors = []string{"NewTx", "NewTxFromBytes", "NewTxFromReader", "NewTxFromBytes+trailing", "NewTxFromReader+trailing"}
+var c16BlockCtors = []string{"NewBlock", "NewBlockFromBytes", "NewBlockFromReader", "NewBlockFromBlockAndBytes", "NewBlockFromBytes+trailing", "NewBlockFromReader+trailing",
+	"NewBlockFromReader+onebyte", "NewBlockFromReader+half"} // readers that deliver less than asked for (a network connection)
+var c16TxCtors = []string{"NewTx", "NewTxFromBytes", "NewTxFromReader", "NewTxFromBytes+trailing", "NewTxFromReader+trailing", "NewTxFromReader+onebyte", "NewTxFromReader+half"}
+
+// c16Reader: the reader handed to a from-reader constructor
+func c16Reader(ctor string, b []byte) io.Reader {
+	switch {
+	case strings.HasSuffix(ctor, "+onebyte"):
+		return iotest.OneByteReader(bytes.NewReader(b))
+	case strings.HasSuffix(ctor, "+half"):
+		return iotest.HalfReader(bytes.NewReader(b))
+	}
+	return bytes.NewReader(b)
+}
 
 // ---------------------------------------------------------------------------------------
 // Implementation state key (private fields, read-only reflection).  A field that no longer
@@ -1157,8 +1171,8 @@ func c16RunBlock(w *mc.W, fixture, ctor string, ops []c16Op, wantKey, sweep bool
 		case "NewBlockFromBytes", "NewBlockFromBytes+trailing":
 			b, err = bchutil.NewBlockFromBytes(ser)
 			r.bytesCached = true
-		case "NewBlockFromReader", "NewBlockFromReader+trailing":
-			b, err = bchutil.NewBlockFromReader(bytes.NewReader(ser))
+		case "NewBlockFromReader", "NewBlockFromReader+trailing", "NewBlockFromReader+onebyte", "NewBlockFromReader+half":
+			b, err = bchutil.NewBlockFromReader(c16Reader(ctor, ser))
 		case "NewBlockFromBlockAndBytes":
 			b = bchutil.NewBlockFromBlockAndBytes(c16BuildBlock(fixture), append([]byte{}, ref.ser...))
 			r.bytesCached = true
@@ -1289,8 +1303,8 @@ func c16RunTx(w *mc.W, name, ctor string, ops []c16Op, wantKey, sweep bool) (key
 			t = bchutil.NewTx(c16BuildTx(name))
 		case "NewTxFromBytes", "NewTxFromBytes+trailing":
 			t, err = bchutil.NewTxFromBytes(ref.input(ctor))
-		case "NewTxFromReader", "NewTxFromReader+trailing":
-			t, err = bchutil.NewTxFromReader(bytes.NewReader(ref.input(ctor)))
+		case "NewTxFromReader", "NewTxFromReader+trailing", "NewTxFromReader+onebyte", "NewTxFromReader+half":
+			t, err = bchutil.NewTxFromReader(c16Reader(ctor, ref.input(ctor)))
 		default:
 			panic("C16: unknown transaction constructor " + ctor)
 		}
